@@ -41,6 +41,8 @@ package output
 //@   ensures [nil_on_error] err != nil ==> res == nil
 //@   ensures [hash_is_a_function_of_the_digest_bag] err == nil ==> res.OutputHash == H(joinOf(sortseq(bagOf(digests)), ","))
 //@   ensures [success_requires_every_hash] err == nil ==> (forall j int :: {tasks[j]} 0 <= j && j < len(tasks) ==> taskOK(tasks[j]))
+//@   ghostset nocacheHashings := nocacheHashings + 1
+//@   ghostset lastNoCacheHash := ite(err == nil, res.OutputHash, lastNoCacheHash)
 //@ loop #2
 //@   invariant [waited_ok] forall j int :: {tasks[j]} 0 <= j && j <= rangeindex ==> taskOK(tasks[j])
 
